@@ -1,5 +1,13 @@
+mod c01;
+mod c02;
+mod c03;
+mod c12;
 mod common;
+mod crash;
 mod hist;
+mod qeng;
+mod qtables;
+mod refq;
 mod runner;
 
 use runner::{Engine, Tier};
@@ -11,6 +19,29 @@ fn engine_for(prop: &str) -> Box<dyn Engine> {
         "C08" => Box::new(hist::HistEngine { flavor: hist::Flavor::C08 }),
         "C13" => Box::new(hist::HistEngine { flavor: hist::Flavor::C13 }),
         "C18" => Box::new(hist::HistEngine { flavor: hist::Flavor::C18 }),
+        "C09" => Box::new(crash::CrashEngine),
+        "C01" => Box::new(c01::C01),
+        "C02" => Box::new(c02::C02),
+        "C03" => Box::new(c03::C03),
+        "C12" => Box::new(c12::C12),
+        "C04" => Box::new(qeng::QueryEngine {
+            prop: "C04",
+            suite: qeng::c04_suite,
+            rule: "every query SELECT <0..2 (thorough: 3) grouping expressions>, <aggregate set> FROM t [WHERE f] for grouping expressions over {small int, nullable int, string, nullable string, float, wide-range int (hash grouping), v % 3, absent column} x 8 aggregate sets of COUNT/SUM/MIN/MAX/AVG over int, nullable int, float, nullable float x 5 filters (none, selective, on NULL, none match, string equality) x 8 physical layouts (1-3 partitions with differing encodings, missing columns, open buffer, cold restart); result rows compared as a multiset with the reference group-by (NULL is its own group, aggregates ignore NULL inputs, float sums with relative tolerance 1e-9). Non-trivial: the reference has at least two groups; distinct by query text.",
+            assumptions: &["integer AVG compared as truncated SUM/COUNT (what the engine defines AVG to be)", "queries the engine declines with TypeError / NotImplemented are counted, not judged", "12-row table: group cardinalities above 65 536 are not covered"],
+        }),
+        "C05" => Box::new(qeng::QueryEngine {
+            prop: "C05",
+            suite: qeng::c05_suite,
+            rule: "every query SELECT id, keys.. FROM t ORDER BY keys [LIMIT l] [OFFSET o] for all single keys over {int, nullable int, float, nullable float, string, nullable string, i+ni, absent column} x ASC/DESC x every (l, o) in [0, n+2]^2, a covering set of two-key lists (every ordered pair of base columns) and two three-key lists with representative windows, plus queries without ORDER BY (ingestion order) with and without a filter, on 4 physical layouts; oracle: the sequence of returned key tuples equals the reference sorted[o..o+l] (NULL last ascending, first descending; ties in any order), every returned row is a distinct row of the filtered table, length = min(l, max(0, N-o)). Non-trivial: window neither empty nor the whole table; distinct by query text.",
+            assumptions: &["n = 10 rows (thorough adds n = 24)", "queries the engine declines with TypeError / NotImplemented are counted, not judged"],
+        }),
+        "C06" => Box::new(qeng::QueryEngine {
+            prop: "C06",
+            suite: qeng::c06_suite,
+            rule: "every expression tree of depth 1 over {+,-,*,/,%} with leaves = 8 integer columns at the edges of u8/u8+offset/u16/u32/i64 (two nullable) and 9 constants, depth 2 over a reduced leaf set, unary minus; each as a projection, and depth-1 expressions also as aggregate argument and filter operand; SUM / AVG / expressions over SUM for 6 value multisets (overflow inside a partition, only when merging, only in a prefix, cancellation, negative) x all splits of 6 rows into <= 3 partitions x grouped / ungrouped; oracle: i128 reference arithmetic - if every row fits the cells must be equal, if any non-NULL row overflows or divides by zero the call must return Err(Overflow), NULL operand gives NULL. Non-trivial: query returns rows or the overflow error; distinct by query text.",
+            assumptions: &["a SUM whose total fits but which overflows for some summation order may also report Overflow", "queries the engine declines with TypeError / NotImplemented are counted, not judged"],
+        }),
         _ => {
             eprintln!("unknown property {}", prop);
             std::process::exit(2)
@@ -43,6 +74,35 @@ fn main() {
         "replay" => {
             let e = engine_for(&args[2]);
             runner::run_replay_main(e.as_ref(), &PathBuf::from(&args[3]))
+        }
+        "sql" => {
+            // lvmc sql <C04|C05|C06> <table idx> <layout idx> "<sql>" ...
+            common::install_panic_hook();
+            let suite = match args[2].as_str() {
+                "C04" => qeng::c04_suite(Tier::Thorough),
+                "C05" => qeng::c05_suite(Tier::Thorough),
+                _ => qeng::c06_suite(Tier::Thorough),
+            };
+            let ti: usize = args[3].parse().unwrap();
+            let li: usize = args[4].parse().unwrap();
+            println!("layout {}", suite.layouts[ti][li].name);
+            let mut db = qtables::build(&suite.tables[ti], &suite.layouts[ti][li]).expect("build");
+            for q in &args[5..] {
+                println!("{} =>", q);
+                match db.query(q) {
+                    common::Outcome::Ok(Ok(o)) => {
+                        println!("  cols {:?} kinds {:?}", o.colnames, o.col_kinds);
+                        for r in &o.rows {
+                            println!("  {:?}", r);
+                        }
+                    }
+                    other => println!("  {:?}", other),
+                }
+                for p in common::take_panics() {
+                    println!("  panic {} {}", p.location, p.message);
+                }
+            }
+            0
         }
         "adhoc" => {
             // lvmc adhoc <C07|C08|C13|C18> "<desc>"  -> runs the history checking every step
